@@ -50,6 +50,10 @@ func OnImplements(t reflect.Type, iface reflect.Type, input reflect.Value, op Tr
 	}
 
 	if v.IsNil() {
+		if wasPointer {
+			// t had its pointer stripped above; stay a (nil) pointer
+			return reflect.Zero(reflect.PtrTo(t)), nil
+		}
 		return reflect.Zero(t), nil
 	}
 
